@@ -26,6 +26,7 @@ import (
 	"verif/harness/ledger"
 	"verif/sim/simos"
 	"verif/sim/simrt"
+	"verif/sim/simsync"
 )
 
 const (
@@ -886,6 +887,7 @@ func ensureTemplate(cfg *Cfg, out *hx.Outcome) string {
 
 type run struct {
 	prop    string
+	reloads bool // C17: the configuration was reloaded (with another minimum value, then the old one) during a build
 	cfg     *Cfg
 	out     *hx.Outcome
 	l       *ledger.Ledger
@@ -1405,7 +1407,32 @@ func (H) Run(t *testing.T, c *hx.Case) *hx.Outcome {
 				}
 			case "wallet_on":
 				if r.prop == "C17" {
+					var reload simsync.WaitGroup
+					if (uint64(o.ID)^cfg.SchedSeed)%3 == 0 {
+						// meanwhile the configuration is reloaded on another goroutine (the web UI's), with another
+						// minimum value and then with the old one again: the index being built must not notice
+						reload.Add(1)
+						simrt.Go(func() {
+							defer reload.Done()
+							orig := common.CFG.AllBalances.MinValue
+							for k := 0; k < 2; k++ {
+								simrt.Yield()
+								common.LockCfg()
+								common.CFG.AllBalances.MinValue = orig + 777_000_000
+								common.UnlockCfg()
+								common.Reset()
+								simrt.Yield()
+								common.LockCfg()
+								common.CFG.AllBalances.MinValue = orig
+								common.UnlockCfg()
+								common.Reset()
+							}
+						})
+						r.out.Probe("config_reloaded_while_the_index_is_built", 1)
+						r.reloads = true
+					}
 					wallet.LoadBalancesFromUtxo()
+					reload.Wait()
 					r.out.Probe("index_built_from_populated_set", 1)
 					r.compareWallet(when)
 				}
@@ -1542,6 +1569,7 @@ func (r *run) boot() {
 		common.GocoinHomeDir = r.dir + "/"
 		common.Testnet = cfg.Testnet
 		common.CFG.Testnet = cfg.Testnet
+		common.CFG.Memory.GCPercTrshold = 100 // (common.Reset() applies it)
 		common.CFG.AllBalances.MinValue = cfg.WalletMinVal
 		common.CFG.AllBalances.UseMapCnt = cfg.WalletUseMap
 		common.Set(&common.WalletON, false)
@@ -1707,7 +1735,12 @@ func (r *run) compareWallet(when string) {
 	if r.bad || !common.Get(&common.WalletON) {
 		return
 	}
-	minv := r.cfg.WalletMinVal
+	// the threshold in force: what was configured when the index was last switched on (the node says which)
+	minv := common.AllBalMinVal()
+	if minv != r.cfg.WalletMinVal && !(r.reloads && minv == r.cfg.WalletMinVal+777_000_000) {
+		r.viol("wallet.threshold", "%s: the index applies a minimum value of %d, configured is %d", when, minv, r.cfg.WalletMinVal)
+		return
+	}
 	want := map[string][]wout{}
 	var typeCnt, typeRecs [5]int
 	var typeVal [5]uint64
